@@ -16,7 +16,7 @@ TECHNIQUE = ('differential + metamorphic runtime monitors on generated acyclic r
 RULE = ('cases = acyclic rule sets over <= 8 names (acyclic including the undefined->default edge): random expression '
         'bodies mixing role checks, recording checks and rule: references; dedicated shapes: alias chains to depth 8, '
         'diamonds, references under not/and/or, undefined references; with and without a default rule (option default name, constructor name, '
-        'constructor check object); every rule enforced under all 16 subsets of 4 roles; stratum `redefinition`: some rules are redefined under the living enforcer (merge, store update, item assignment, overwrite) and everything is re-decided against the new definitions. Stratum `checker-tool`: the same rule sets written to a file and decided by the console checker (its own stand-in enforcer), incl. an unknown policy name. Non-trivial = the '
+        'constructor check object); every rule enforced under all 16 subsets of 4 roles; stratum `redefinition`: some rules are redefined under the living enforcer (merge, store update, item assignment, overwrite) and everything is re-decided against the new definitions. Stratum `overlap`: two requests enforce two policies of one rule set at the same time (second one runs at sampled line boundaries of the first, deterministic scheduler); decisions and the policy name told to nested checks must be those of each request alone. Stratum `checker-tool`: the same rule sets written to a file and decided by the console checker (its own stand-in enforcer), incl. an unknown policy name. Non-trivial = the '
         'rule set contains at least one rule: reference reached from the enforced rule; distinct = distinct rule set.')
 ASSUMPTIONS = ['role:/@/! leaves evaluate as C01/C04 state', 'the harness registers two private check kinds and removes them afterwards']
 LEVEL_TEXT = ('Seeded sampling of acyclic reference graphs with targeted shapes (chains, diamonds, undefined references), '
@@ -24,17 +24,19 @@ LEVEL_TEXT = ('Seeded sampling of acyclic reference graphs with targeted shapes 
               'its own inlined variant; alias transparency is a property of infinitely many graphs, so structured sampling is the level.')
 LEVEL_NOTE = 'trusted: the reference evaluator with expansion; generated graphs are acyclic by construction (topological order)'
 PLAN = {'quick': dict(shards=4, wall=60), 'thorough': dict(shards=16, wall=400)}
-MIN = {'evaluations': 300, 'reference_decisions': 5000, 'inlined_comparisons': 200, 'current_rule_observations': 500,
+MIN = {'overlapping_evaluations': 200, 'evaluations': 300, 'reference_decisions': 5000, 'inlined_comparisons': 200, 'current_rule_observations': 500,
        'undefined_reference_decisions': 100, 'three_arg_calls': 100, 'redefinition_decisions': 2000, 'unknown_name_direct_decisions': 1000, 'checker_tool_decisions': 500,
        'checker_tool_undefined_reference_decisions': 50}
 ANCHORS = ['oslo_policy._checks:RuleCheck.__call__', 'oslo_policy._checks:_check', 'oslo_policy.policy:Rules.__missing__',
            'oslo_policy.policy:Enforcer.enforce']
 REQUIRED_ANCHORS = ['oslo_policy.policy:Enforcer.enforce']
 N = {'quick': 2000, 'thorough': 200000}
+OVERLAPS = {'quick': 10, 'thorough': 200}
 
 ROLES = ['a', 'b', 'c', 'd']
 SUBSETS = [[r for i, r in enumerate(ROLES) if m >> i & 1] for m in range(16)]
 SEEN = []          # (kind, current_rule) observed by the recording checks
+WRONG = []         # (policy being enforced by this request, current_rule received) - overlap stratum: requests carry their policy name
 CALLS3 = [0]
 
 
@@ -44,6 +46,8 @@ def install_kinds():
     class Rec(_checks.Check):
         def __call__(self, target, creds, enforcer, current_rule=None):
             SEEN.append(current_rule)
+            if creds.get('pv_expect') not in (None, current_rule):
+                WRONG.append([creds['pv_expect'], current_rule])
             return self.match in creds['roles']
 
     class Rec3(_checks.Check):
@@ -54,6 +58,8 @@ def install_kinds():
         """A check class whose fourth parameter is NOT called current_rule: the policy name is passed by position."""
         def __call__(self, target, creds, enforcer, rule_name=None):
             SEEN.append(rule_name)
+            if creds.get('pv_expect') not in (None, rule_name):
+                WRONG.append([creds['pv_expect'], rule_name])
             return self.match in creds['roles']
     env.register_kind('pvrec', Rec)
     env.register_kind('pvrec3', Rec3)
@@ -269,6 +275,34 @@ def check_case(ctx, case):
                 break
 
 
+def check_overlap(ctx, case):
+    """Two requests enforce two policies of one rule set (shared alias targets) at the same time with different roles: each
+    is decided as its definition says, and nested checks of each request are told that request's policy name."""
+    from oslo_policy import policy
+    from pv.mon import overlap
+    rules = {k: fromjson(v) for k, v in case['rules'].items()}
+    texts = {k: text_of(v) for k, v in rules.items()}
+    enf = build(policy, case, texts)
+    (na, ra), (nb, rb) = case['a'], case['b']
+    stats = {'object_default': case['default_mode'] == 'ctor-object'}
+    refa = ev(rules[na], rules, case['default'], ra, dict(stats)) if na in rules else ev(('ref', na), rules, case['default'], ra, dict(stats))
+    refb = ev(rules[nb], rules, case['default'], rb, dict(stats)) if nb in rules else ev(('ref', nb), rules, case['default'], rb, dict(stats))
+    want = [['returned', refa], ['returned', refb]]
+    ctx.case(['overlap', texts, case['a'], case['b']], True, 'overlap')
+    del WRONG[:]
+    detail = {'rules': texts, 'default': case['default'], 'default_mode': case['default_mode'], 'request_a': case['a'], 'request_b': case['b'],
+              'expected': want}
+    ok = overlap.enforce_pair(ctx, enf, (na, {}, {'roles': list(ra), 'pv_expect': na}, {}), enf, (nb, {}, {'roles': list(rb), 'pv_expect': nb}, {}),
+                              case, detail, ctx.sub_rnd('Ob', case['rseed']))
+    if WRONG:
+        ctx.violation('nested-check-told-wrong-policy-name', case, dict(detail, enforced_vs_told=WRONG[:3]))
+        del WRONG[:]
+    elif ok:
+        got = [overlap.outcome(lambda: enf.enforce(na, {}, {'roles': list(ra)})), overlap.outcome(lambda: enf.enforce(nb, {}, {'roles': list(rb)}))]
+        if got != want:
+            ctx.violation('alias-not-transparent', case, dict(detail, observed=got))
+
+
 def check_tool(ctx, case):
     """The same alias semantics inside the console checker (oslopolicy-checker evaluates the check trees itself, with its
     own stand-in enforcer): rule:NAME decides as NAME, an undefined reference as the file's `default` rule (else deny)."""
@@ -397,6 +431,20 @@ def run(ctx):
                             'shape': case['shape']})
         ctx.count('three_arg_calls', CALLS3[0])
         ctx.stratum('random', exhaustive=False)
+        # two overlapping requests, last (the line-level scheduler slows everything that runs after it is installed)
+        from pv.mon import sched
+        ctx.stratum('overlap', exhaustive=False)
+        try:
+            for i in range(OVERLAPS[ctx.tier]):
+                if ctx.expired():
+                    break
+                r = ctx.sub_rnd('O', ctx.tier, ctx.shard, i)
+                case = gen_ruleset(r)
+                names = sorted(case['rules']) + ['pv-unknown-policy']
+                check_overlap(ctx, dict(case, overlap=True, a=[r.choice(names), r.choice(SUBSETS)], b=[r.choice(names), r.choice(SUBSETS)],
+                                        rseed='%s.%d.%d' % (ctx.tier, ctx.shard, i)))
+        finally:
+            sched.uninstall()
     finally:
         remove_kinds()
 
@@ -404,6 +452,8 @@ def run(ctx):
 def replay(ctx, case):
     install_kinds()
     try:
+        if case.get('overlap'):
+            return check_overlap(ctx, case)
         if case.get('redefinition'):
             return check_redefinition(ctx, case)
         if case.get('tool'):
